@@ -138,6 +138,10 @@ def item (reg : Reg) (fuel : Nat) (j : J) : J :=
       | .error .fuel => .obj [("err", .str "fuel")]
       | .error .internal => .obj [("err", .str "internal")]
       | .ok kw => .obj [("ok", kwToWire kw), ("vars", kwToWire env)]
+  | "allowed" =>
+    let vt := Driver.tyOfJson (j.getD "vt")
+    let lt := Driver.tyOfJson (j.getD "lt")
+    .obj [("sub", .bool (isSubtype vt lt)), ("allowed", .bool (allowedUsage vt (j.boolD "vdef") lt (j.boolD "ldef")))]
   | "trace" =>
     let vardefs : List VarDef := (j.arrD "vardefs").map fun d =>
       { name := d.strD "name", type := Driver.tyOfJson (d.getD "type"),
